@@ -57,6 +57,8 @@ type strRun struct {
 	inflight [][]taken
 	parkedQ  []*strProc
 	sawCommit bool
+	lastCommit map[int]uint64
+	tmoSeq     map[int]uint64
 }
 
 var curStrRun *strRun
@@ -104,13 +106,13 @@ func strTrace(kind string, a, b uint64) {
 		}
 	case "s.get":
 		if p != nil {
-			k := 0
-			if a == 0 {
-				k = 1
-			} else {
-				run.inflight[p.sid] = append(run.inflight[p.sid], taken{int64(a), b})
-			}
-			run.emit("get %d %d %d %d %d", p.id, p.sid, a, b, k)
+			run.inflight[p.sid] = append(run.inflight[p.sid], taken{int64(a), b})
+			run.emit("get %d %d %d %d 0", p.id, p.sid, a, b)
+		}
+	case "s.gettmo":
+		// a time-out event: Offset 0, SeqID = commitSeq when tryUnblock made it
+		if p != nil {
+			run.emit("get %d %d 0 %d 1", p.id, a, run.tmoSeq[int(a)])
 		}
 	case "s.leave":
 		if p != nil {
@@ -120,8 +122,10 @@ func strTrace(kind string, a, b uint64) {
 		run.emit("detach %d", a)
 	case "s.commit":
 		run.sawCommit = true
+		run.lastCommit[run.offSid[int64(a)]] = b
 		run.emit("commit %d %d", run.offSid[int64(a)], b)
 	case "s.timeout":
+		run.tmoSeq[int(a)] = run.lastCommit[int(a)]
 		run.emit("timeout %d", a)
 	}
 }
@@ -149,7 +153,7 @@ func strGate(point string, a, b uint64) {
 }
 
 func newStrRun(nprocs, nstreams int) *strRun {
-	run := &strRun{goids: map[int64]*strProc{}, offSid: map[int64]int{}}
+	run := &strRun{goids: map[int64]*strProc{}, offSid: map[int64]int{}, lastCommit: map[int]uint64{}, tmoSeq: map[int]uint64{}}
 	run.v = pipeline.VerifNewStreamer(time.Hour)
 	run.nextOff = make([]int64, nstreams)
 	run.inflight = make([][]taken, nstreams)
